@@ -23,6 +23,7 @@
  *   nearrow <b> <pos>               bin_mdef_phone_id_nearest(b, l, r, pos) for all l, r          -> n <pid>...
  *   near <b> <l> <r> <pos>          one lookup and its pid2ssid                                   -> n <pid> <ssid>
  *   tabs                            every written ldiph_lc / lrdiph_rc / rssid row                -> t L<b>,<r>:… S<b>:… R<b>,<l>:ssid/cimap
+ *   mgood                           every phone has a senone-sequence id (the model's mdefGood)   -> mg 1
  *   intern <word>                   dict2pid_internal for the word-internal positions             -> i <ssid>...
  *   d2p                             boundary tables of every word vs bin_mdef_phone_id_nearest    -> d2p ok <n> | d2p bad ...
  *   fsg <word>...                   linear grammar over the words, decoder_set_fsg                -> g <rc>
@@ -258,13 +259,16 @@ int main(int argc, char **argv)
     while (fgets(line, sizeof(line), stdin)) {
         int n = vf_words(line, w, 4096);
         if (n == 0) { printf("bad-op\n"); fflush(stdout); continue; }
-        if (!strcmp(w[0], "mdef") && n >= 2) {
+        if ((!strcmp(w[0], "mdef") || !strcmp(w[0], "mdefx")) && n >= 2) {
+            /* `mdefx`: without the case-insensitive lookup (the binary search of bin_mdef_ciphone_id_nocase over the
+             * case-sensitively sorted table does not find fr-fr's "SIL"; the d2p family writes phones in their exact case) */
+            int exact_only = !strcmp(w[0], "mdefx");
             int i, ok = (n - 2 == bin_mdef_n_ciphone(smdef)) && atoi(w[1]) == bin_mdef_silphone(smdef);
             for (i = 0; ok && i < n - 2; i++) {
                 unsigned char *s = vf_parse_hex(w[i + 2], &len);
                 /* the table is what the op file says and bin_mdef_ciphone_id inverts it */
                 ok = !strcmp((char *)s, bin_mdef_ciphone_str(smdef, i)) && bin_mdef_ciphone_id(smdef, (char *)s) == i
-                     && bin_mdef_ciphone_id_nocase(smdef, (char *)s) == i;
+                     && (exact_only || bin_mdef_ciphone_id_nocase(smdef, (char *)s) == i);
                 free(s);
             }
             printf(ok ? "mdef ok\n" : "mdef MISMATCH\n");
@@ -278,6 +282,13 @@ int main(int argc, char **argv)
                 for (r = 0; r < nci; r++)
                     printf(" %d", bin_mdef_phone_id_nearest(smdef, b, l, r, (word_posn_t)pos));
             printf("\n");
+        } else if (n == 1 && !strcmp(w[0], "mgood")) {
+            /* every phone of the table has a senone-sequence id, and the CI phones are phones of the table
+             * (the leaves of cd_tree are checked by `mdefdump`): the model's `mdefGood` */
+            int p, ok = bin_mdef_n_ciphone(smdef) <= bin_mdef_n_phone(smdef);
+            for (p = 0; ok && p < bin_mdef_n_phone(smdef); p++)
+                ok = bin_mdef_pid2ssid(smdef, p) != BAD_S3SSID && bin_mdef_pid2ssid(smdef, p) < bin_mdef_n_sseq(smdef);
+            printf("mg %d\n", ok);
         } else if (n == 5 && !strcmp(w[0], "near")) {
             int p = bin_mdef_phone_id_nearest(smdef, atoi(w[1]), atoi(w[2]), atoi(w[3]), (word_posn_t)atoi(w[4]));
             printf("n %d %d\n", p, bin_mdef_pid2ssid(smdef, p));
